@@ -1,5 +1,5 @@
 import GolibsVerif.Model.TmoPool
 import GolibsVerif.Lemmas.TmoPoolBase
 import GolibsVerif.Lemmas.TmoPoolInv
+import GolibsVerif.Lemmas.TmoPoolResp
 import GolibsVerif.Lemmas.TmoPoolLate
-import GolibsVerif.Lemmas.TmoPoolCex
